@@ -104,6 +104,22 @@ func runThorough(c *Ctx, id string) {
 	}
 	results := make([]result, len(vs))
 	sem := make(chan struct{}, 6)
+	// Every variant lives in its own scratch directory, and the Go build cache keys a package by its directory: a
+	// thousand variants would leave several GB behind. They therefore run on a private build cache - a hard-linked
+	// copy of the current one (no space, no recompilation of what is already built) that is removed with the run.
+	variantEnv := os.Environ()
+	if out, err := exec.Command("go", "env", "GOCACHE").Output(); err == nil {
+		src := strings.TrimSpace(string(out))
+		tmpc := filepath.Join(os.TempDir(), fmt.Sprintf("nutcheck-gocache-%d", os.Getpid()))
+		os.RemoveAll(tmpc)
+		if src == "" || exec.Command("cp", "-al", src, tmpc).Run() != nil {
+			os.RemoveAll(tmpc)
+			os.MkdirAll(tmpc, 0o755)
+		}
+		defer os.RemoveAll(tmpc)
+		variantEnv = append(variantEnv, "GOCACHE="+tmpc)
+	}
+
 	var wg sync.WaitGroup
 	for i := range vs {
 		wg.Add(1)
@@ -143,6 +159,7 @@ func runThorough(c *Ctx, id string) {
 			}
 			res.applied = true
 			run := exec.Command(self, "-repo", tmp, "-verif", verif, "-property", id, "-tier", "quick", "-no-evidence")
+			run.Env = variantEnv
 			out, _ := run.CombinedOutput()
 			for _, l := range strings.Split(string(out), "\n") {
 				if strings.HasPrefix(l, "  key=") {
